@@ -599,10 +599,10 @@ func (g *G) heredoc(depth int) *Node {
 	kind := g.R.Intn(4)
 	var ns []*Node
 	var ps []interface{}
-	openTxt := "<<<" + label + nl
+	openTxt := "<<<" + OptHB + label + nl
 	switch kind {
 	case 0: // nowdoc
-		openTxt = "<<<'" + label + "'" + nl
+		openTxt = "<<<" + OptHB + "'" + label + "'" + nl
 		body := indent + g.R.Pick("raw $text {$here}", "x", "a\\b", "") + nl
 		if g.R.Chance(1, 3) {
 			body += indent + "second line" + nl
@@ -611,7 +611,7 @@ func (g *G) heredoc(depth int) *Node {
 		ns, ps = []*Node{p}, []interface{}{p}
 	default:
 		if kind == 1 {
-			openTxt = "<<<\"" + label + "\"" + nl
+			openTxt = "<<<" + OptHB + "\"" + label + "\"" + nl
 		}
 		if g.R.Chance(1, 3) {
 			body := indent + g.R.Pick("plain text", "two\\nwords", "a 'q' \"dq\"") + nl
@@ -830,7 +830,7 @@ func (g *G) castExpr(depth int, rightOpen bool) *Node {
 	if g.R.Bool() {
 		w = strings.ToUpper(w[:1]) + w[1:]
 	}
-	txt := "(" + g.R.Pick("", " ", "\t", "  ") + w + g.R.Pick("", " ", "\t") + ")"
+	txt := "(" + OptHB + w + OptHB + ")"
 	e := g.fit(g.expr(depth+1, rightOpen), precUnary, false, rightOpen, c.kind)
 	return &Node{Kind: c.kind, Kids: []Kid{one("Expr", e)}, Parts: parts(t(txt), e), Prec: precUnary, Prefix: true}
 }
@@ -966,7 +966,7 @@ func (g *G) yield(depth int, rightOpen bool) *Node {
 		return &Node{Kind: "ExprYield", Kids: []Kid{one("Key", k), one("Val", v)}, Parts: parts(g.kw("yield"), k, t("=>"), v), Prec: 7, Prefix: true}
 	case 2:
 		v := g.fit(g.expr(depth+1, rightOpen), precAssign, false, rightOpen, "ExprYieldFrom")
-		txt := g.R.Pick("yield from", "yield  from", "YIELD FROM", "yield\tfrom", "yield\nfrom", "Yield \r\n From")
+		txt := g.R.Pick("yield", "yield", "YIELD", "Yield") + ReqWS + g.R.Pick("from", "from", "FROM", "From")
 		n := &Node{Kind: "ExprYieldFrom", Kids: []Kid{one("Expr", v)}, Parts: parts(t(txt), v), Prec: 9, Prefix: true, Flags: FPhp7Only}
 		return n
 	}
